@@ -45,6 +45,10 @@ hooks, exec failures, deaths at every kernel-call boundary, reloads, `kill` / `s
   (`C03_run_sigkill_to_worker_never_first_in_step`, `C03_run_sigkill_to_worker_never_first`).  Those requests are exempt because they ask for signal 9
   themselves (`C03_counterexample_requested_sigkill_is_first`).
 
+* `C03_counterexample_sigkill_to_worker_that_exited_in_time` — what does *not* hold: `kill_process` does not poll
+  again when its loop ends by count, so a worker that exits between the last poll and the timeout is sent SIGKILL
+  as a zombie (harmless; same trace on the real code).
+
 Which signals are meant: the escalation is the call `sendSignalProcess u p 9 true` in `killFinish`
 (`C03_escalation_is_sigkill`).  A SIGKILL entry in the log can also stem from a `signal` / `kill` request
 that names signal 9 or from a watcher whose `stop_signal` is 9 — then it *is* the requested / configured
@@ -487,6 +491,28 @@ def sig9Req : JVal :=
 theorem C03_counterexample_requested_sigkill_is_first :
     hasSig (run (initState c03Cfg [{ term := none }] 0) [.start, .wake, .wake, .req "c" (some sig9Req)]).log 100 9 = true ∧
     hasSig (run (initState c03Cfg [{ term := none }] 0) [.start, .wake, .wake, .req "c" (some sig9Req)]).log 100 15 = false := by
+  decide +kernel
+
+/-- one worker that obeys the stop signal after 250 ms, graceful_timeout 300 ms = 3 polls -/
+def c03Late : List Watcher := [{ name := "a", np := 1, graceful := 300 }]
+
+/-- **"never to a worker that exited in time" fails in the last polling interval** (the statement of
+    the property taken literally; the signal is harmless): `kill_process` polls at 0, 100 and 200 ms, the
+    worker exits at 250 ms — before the grace period of 300 ms is over —, and at 300 ms the loop ends by
+    count and escalates *without polling again*: SIGKILL goes to the not yet collected (zombie) pid, which
+    is then reaped with the wait status of the stop signal (15), not of SIGKILL.  On a POSIX kernel
+    `kill(2)` on a zombie succeeds and does nothing.  What holds instead: no SIGKILL to a worker a poll
+    has found dead (`C03_no_sigkill_to_exited`), none to a collected one (`C03_run_no_sigkill_to_reaped`).
+    Replayed on the real code on the simulated kernel: same trace (`o sig 100 9 z`), corpus case
+    `corpus/C03/sigkill-to-zombie-in-last-interval.json`. -/
+theorem C03_counterexample_sigkill_to_worker_that_exited_in_time :
+    (run (initState c03Late [{ term := some 250 }] 0) (c03Pre ++ [.wake, .wake, .wake])).log.any
+      (fun o => match o with | .sig 100 9 .zombie "" => true | _ => false) = true ∧
+    (run (initState c03Late [{ term := some 250 }] 0) (c03Pre ++ [.wake, .wake, .wake])).log.any
+      (fun o => match o with | .reap 100 15 => true | _ => false) = true ∧
+    (run (initState c03Late [{ term := some 250 }] 0) (c03Pre ++ [.wake, .wake])).k.procs.map (fun p => (p.pid, p.st)) =
+      [(100, .run)] ∧
+    (run (initState c03Late [{ term := some 250 }] 0) (c03Pre ++ [.wake, .wake])).k.now = 200 := by
   decide +kernel
 
 end Circus.Core
